@@ -84,3 +84,9 @@ Definition w3_pre : state := run w_cfg (init_state w_funds) w3_ops.
 Lemma witness_F3 :
   after_epoch_end w_cfg w3_thr w3_pre = Err E_EPOCH /\ 0 < ideal_credit w_cfg w3_thr w3_pre 1 0.
 Proof. vm_compute. split; reflexivity. Qed.
+
+Lemma w3_thr_positive : thr_positive w3_thr.
+Proof.
+  intros d m H. unfold w3_thr, thr_fun in H.
+  destruct (Z.to_nat d) as [|[|[|[|[|[|n]]]]]]; cbn in H; try discriminate; inversion H; lia.
+Qed.
